@@ -96,7 +96,7 @@ func checkC05(c *Ctx, r *Report) {
 		r.Fail("C05-const", "anchor (*fbb.Session).sendOutbound not found")
 	} else {
 		found := false
-		for _, ci := range callsTo(fn, false, "fmt.Fprintf") {
+		for _, ci := range c.j1CallsBelow(fn, "fmt.Fprintf") { // in sendOutbound or a helper below it (ip_j1.go)
 			s, ok := constString(ci.Common().Args[1])
 			if !ok || !strings.HasPrefix(s, "F>") {
 				continue
@@ -263,10 +263,11 @@ func checkC05(c *Ctx, r *Report) {
 	if fn := c.Func("fbb", "(*Session).sendOutbound"); fn != nil {
 		emitted := -1
 		var at token.Pos
-		for _, ci := range callsTo(fn, false, "fmt.Sprintf") {
-			if s, ok := constString(ci.Common().Args[0]); ok && strings.HasPrefix(s, "F%c") {
-				emitted = len(strings.Split(s, " ")) - 1
-				at = ci.Pos()
+		for _, e := range c.j1BlockEmitters(fn) { // in sendOutbound or a helper below it (ip_j1.go)
+			s, _ := constString(e.call.Common().Args[0])
+			if n := len(strings.Split(s, " ")) - 1; emitted < 0 || emitted == 5 {
+				emitted = n
+				at = e.call.Pos()
 			}
 		}
 		required := int64(-1)
@@ -464,26 +465,48 @@ func blockRule(c *Ctx, r *Report, pr *prover, rule string) {
 		r.Fail(rule, "anchor sendOutbound not found")
 		return
 	}
+	max, _ := constIntOf(p, "MaxBlockSize")
+	// the loop that emits the proposal lines may sit in sendOutbound or in a helper below it; a slice
+	// that is a parameter of the helper is bound to the argument of every call site (ip_j1.go)
+	emitters := c.j1BlockEmitters(fn)
 	var ranged ssa.Value
-	var at ssa.Instruction
-	for _, ci := range callsTo(fn, false, "fmt.Sprintf") {
-		if s, ok := constString(ci.Common().Args[0]); ok && strings.HasPrefix(s, "F%c") {
-			ranged, at = rangedSlice(ci.Block())
+	var block []ssa.Value // the emitted slice(s) as values of sendOutbound
+	resolved, bounded := len(emitters) > 0, true
+	for _, e := range emitters {
+		if e.ranged == nil {
+			resolved = false
+			continue
 		}
+		ranged = e.ranged
+		if !c.j1LenBounded(pr, e.ranged, e.at, max, 0) {
+			bounded = false
+		}
+		vs, ok := c.j1Actuals(fn, e.call.Parent(), e.ranged, 0)
+		if !ok {
+			vs = []ssa.Value{nil}
+		}
+		block = append(block, vs...)
 	}
 	o := r.Add(rule, fnName(fn), "len(block) <= MaxBlockSize", c.pos(fn.Pos()))
-	max, _ := constIntOf(p, "MaxBlockSize")
 	switch {
-	case ranged == nil:
+	case !resolved:
 		o.Bad("could not identify the slice of proposals the block loop ranges over (unresolved)")
-	case pr.LE(ranged, true, 0, nil, false, max, at):
+	case bounded:
 		o.OK("the proposals emitted are a slice proven to hold at most %d entries (truncation dominates the loop)", max)
 	default:
 		o.Bad("the slice of proposals emitted (%s) is not proven to hold at most MaxBlockSize=%d entries: more than five proposals per block", pathOf(ranged), max)
 	}
 	// the answers are parsed against, and the transfers dispatched over, the same truncated block
-	for _, ci := range callsTo(fn, false, "fbb.parseProposalAnswer") {
-		same := ci.Common().Args[1] == ranged
+	for _, ci := range c.j1CallsBelow(fn, "fbb.parseProposalAnswer") {
+		against, ok := c.j1Actuals(fn, ci.Parent(), ci.Common().Args[1], 0)
+		same := ok && resolved
+		for _, a := range against {
+			for _, b := range block {
+				if a == nil || a != b {
+					same = false
+				}
+			}
+		}
 		r.Check(rule, fnName(fn), "answers matched against the emitted block", c.pos(ci.Pos()), same,
 			"parseProposalAnswer receives the same (truncated) slice that was emitted", "the answers are matched against a different slice than the block that was emitted")
 	}
@@ -691,7 +714,13 @@ func turnRule(c *Ctx, r *Report, rule string) {
 	} else {
 		where := fnName(fn)
 		found := map[string]int{}
-		eachInstr(fn, func(b *ssa.BasicBlock, _ int, in ssa.Instruction) {
+		// the choice may be made in handleOutbound or in a helper below it (ip_j1.go)
+		eachBelow := func(f func(b *ssa.BasicBlock, _ int, in ssa.Instruction)) {
+			for _, g := range c.j1Below(fn) {
+				eachInstr(g, f)
+			}
+		}
+		eachBelow(func(b *ssa.BasicBlock, _ int, in ssa.Instruction) {
 			ops := in.Operands(nil)
 			for k, op := range ops {
 				s, ok := constString(*op)
@@ -737,14 +766,9 @@ func turnRule(c *Ctx, r *Report, rule string) {
 			if !emptyOut {
 				continue
 			}
-			v := resOf(ret, 0)
-			ok := false
-			if u, isLoad := v.(*ssa.UnOp); isLoad && u.Op == token.MUL && isFlag(u.X) {
-				ok = true
-			}
-			if b, isC := constBool(v); isC {
-				ok = flagCond(condsAt(ret.Block()), b)
-			}
+			// the flag itself, a constant under a test of the flag, or the result of a helper that
+			// returns such a value on every path (ip_j1.go)
+			ok := c.j1FlagResult(resOf(ret, 0), condsAt(ret.Block()), isFlag, flagCond, 0)
 			r.Check(rule, where, "quitSent result", c.pos(ret.Pos()), ok,
 				"the result reports FQ exactly when the flag chose FQ", "the quitSent result does not follow the FF/FQ choice: the turn loop continues after FQ or stops after FF")
 		}
@@ -971,11 +995,8 @@ func fieldOrderRule(c *Ctx, r *Report, rule string) {
 	if fn := c.Func("fbb", "(*Session).sendOutbound"); fn == nil {
 		r.Fail(rule, "anchor sendOutbound not found")
 	} else {
-		for _, ci := range callsTo(fn, false, "fmt.Sprintf") {
-			s, ok := constString(ci.Common().Args[0])
-			if !ok || !strings.HasPrefix(s, "F%c") {
-				continue
-			}
+		for _, e := range c.j1BlockEmitters(fn) { // in sendOutbound or a helper below it (ip_j1.go)
+			ci := e.call
 			o := r.Add(rule, fnName(fn), "proposal line arguments", c.pos(ci.Pos()))
 			args, ok := variadicArgs(ci.Common().Args[1])
 			if !ok || len(args) < 5 {
